@@ -402,6 +402,7 @@ def gen_module(ctx: Ctx, avail_modules: List[Unit], with_submodule=False):
         nb = rng.randint(1, 3)
         t.private_bindings = rng.random() < 0.2
         t.multi_binding_stmt = rng.random() < 0.3
+        shared_doc = ctx.doc() if t.multi_binding_stmt else []  # the comment after a statement naming several bindings documents each of them
         for _ in range(nb):
             selfarg = Var(ctx.name("self"), TypeSpec("class", proto=t.name), intent=rng.choice(["in", "inout"]), role="arg")
             impl = gen_proc(ctx, kinds, alltypes, self_arg=selfarg, module_level=True, allow_contains=False)
@@ -417,7 +418,7 @@ def gen_module(ctx: Ctx, avail_modules: List[Unit], with_submodule=False):
                 b.access = rng.choice(["public", "private"])
             if rng.random() < 0.15:
                 b.attrs.append("non_overridable")
-            b.doc = ctx.doc() if not t.multi_binding_stmt else []
+            b.doc = ctx.doc() if not t.multi_binding_stmt else list(shared_doc)
             t.bindings.append(b)
         plain = [b for b in t.bindings]
         if len(plain) >= 2 and rng.random() < 0.4:
